@@ -202,11 +202,19 @@ package common
 
 // C03 / C04 mechanism "allocateSubGroupSet tries them with checkpoint/rollback": every node set the topology plugin
 // offers is tried from the checkpoint taken right before; a failed attempt is rolled back before the next one.
+// (c04c) C04 "all of its pods placed by a decision, together with its already active pods, lie in one domain": the
+// topology plugin pins the domain of the ACTIVE pods of the pod sets it is handed, so the pod-set map given to
+// ssn.SubsetNodesFn for a pod set must be exactly {its name: the pod set}. This is the pair of preconditions
+// [podSetsCoverSubGroup] / [podSetsOnlyOfSubGroup] of (*Session).SubsetNodesFn (framework), proved here at the call
+// (obligations allocatePodSet/pre#..): every pod set at or below the node named by &podSet.SubGroupInfo is in the map,
+// and nothing else is.
 //@ func allocatePodSet
 //@   props C03 C04
 //@   nopanic off
 //@   usestable PodInfo.ResourceRequestType []*PodInfo
 //@   requires placeReady(ssn, stmt)
+//@   assume forall ps *subgroup_info.PodSet :: subgroup_info.belowSG(podSet.parent, podSet.name, ps) <==> ps == podSet
+//@   note the assume is the leaf case of the definition of subgroup_info.belowSG (a pod-set node contains exactly itself); belowSG is constrained nowhere else in this unit
 //@   modifies *
 //@   loop 1
 //@     modifies *
@@ -309,6 +317,12 @@ package common
 //@   ensures [revFailMono] framework.revFailMono()
 //@ end
 
+// (c04c) C04 "When a workload or sub-group declares a required topology level, all of its pods placed by a decision,
+// together with its already active pods, lie in one domain ... Constraints of nested sub-groups hold simultaneously with
+// those of their parents": the pod-set map handed to ssn.SubsetNodesFn for a sub-group SET must name EVERY pod set at
+// or below that set (also those with nothing to allocate in this decision: their active pods pin the domain) and
+// nothing else - preconditions [podSetsCoverSubGroup] / [podSetsOnlyOfSubGroup] of (*Session).SubsetNodesFn, proved
+// at the call (obligations allocateSubGroupSet/pre#..) from GetAllPodSets' [coversAllBelow] / [onlyBelow].
 //@ func allocateSubGroupSet
 //@   props C03 C04
 //@   nopanic off
